@@ -1,4 +1,5 @@
 //! vgraph: Layer-1 explorers on the REAL pipeline (logos_codegen::generate with the capture hook).
+mod cli;
 mod common;
 mod families;
 mod gen;
@@ -100,6 +101,7 @@ fn main() {
         "c12" => families::c12(&args),
         "c06struct" => tokenlevel::c06struct(&args),
         "c16" => tokenlevel::c16(&args),
+        "c17" => cli::c17(&args),
         "c18" => tokenlevel::c18(&args),
         "c19" => tokenlevel::c19(&args),
         "replay" => families::replay(&args),
